@@ -70,7 +70,6 @@ func (o *Obligation) Query() string {
 		}
 	}
 	var b strings.Builder
-	b.WriteString(o.fe.eng.sorts.prelude())
 	for i, l := range lines {
 		if include[i] {
 			if j := strings.LastIndex(l, ";owner "); j >= 0 {
@@ -80,10 +79,41 @@ func (o *Obligation) Query() string {
 			b.WriteByte('\n')
 		}
 	}
-	b.WriteString("(assert " + o.PC + ")\n")
-	b.WriteString("(assert " + not(o.Goal) + ")\n")
-	b.WriteString("(check-sat)\n")
-	return b.String()
+	tail := "(assert " + o.PC + ")\n(assert " + not(o.Goal) + ")\n(check-sat)\n"
+	body := b.String()
+	// spec-function axioms: only those whose functions are mentioned
+	used := map[int]bool{}
+	var ax strings.Builder
+	for changed := true; changed; {
+		changed = false
+		for i, a := range o.fe.root().axioms {
+			if used[i] {
+				continue
+			}
+			for _, sym := range a.syms {
+				if strings.Contains(body, sym) || strings.Contains(tail, sym) || strings.Contains(ax.String(), sym) {
+					used[i] = true
+					ax.WriteString(a.text + "\n")
+					changed = true
+					break
+				}
+			}
+		}
+	}
+	for i, a := range o.fe.root().axioms {
+		if used[i] {
+			o.fe.root().usedAssumed["axiom "+a.name] = true
+		}
+	}
+	full := body + ax.String() + tail
+	return o.fe.eng.sorts.prelude(full) + full
+}
+
+func (fe *FuncEnc) root() *FuncEnc {
+	for fe.inlineParent != nil {
+		fe = fe.inlineParent
+	}
+	return fe
 }
 
 type OblResult struct {
